@@ -52,6 +52,7 @@ def shards(tier, seed):
         out += [{"kind": "random", "n": 1500, "part": p} for p in range(14)]
         out.append({"kind": "contracts", "n": 1500})
         out.append({"kind": "negative"})
+        out += [{"kind": "layout", "lo": lo, "hi": lo + 1100} for lo in range(0, 4400, 1100)]
     else:
         for p in range(96):
             out.append({"kind": "dfs", "maxlen": 4, "depth": 4, "part": p, "parts": 96})
@@ -59,6 +60,7 @@ def shards(tier, seed):
         out += [{"kind": "random", "n": 16000, "part": p} for p in range(32)]
         out.append({"kind": "contracts", "n": 20000})
         out.append({"kind": "negative"})
+        out += [{"kind": "layout", "lo": lo, "hi": lo + 2200} for lo in range(0, 70400, 2200)]
     return out
 
 
@@ -155,6 +157,27 @@ def run(shard, rec, tier, seed):
         rec.sample({"data": data, "script": script[:10]})
     elif kind == "contracts":
         run_contracts(ns, rec, shard, seed)
+    elif kind == "layout":
+        # break position sweep: a chunk of every length lo..hi (non-break filler), its break byte, then a
+        # short tail chunk - behind nothing, behind one chunk and behind two; read through four plans.
+        # Whatever a reader uses to find the next break (blocks, caches, windows) meets every offset.
+        rng = random.Random("C05-layout-%d-%d" % (seed, shard["lo"]))
+        leads = [b"", b"\x01\xff", b"\x01\x02\x03\xff\x05\xff"]
+        plans = [
+            [("get_bytes", 10 ** 9), ("next_chunk",), ("get_byte",), ("get_bytes", 10 ** 9), ("next_chunk",), ("get_byte",)],
+            [("get_short",), ("next_chunk",), ("get_short",), ("next_chunk",), ("get_byte",)],
+            [("get_string",), ("get_byte",), ("next_chunk",), ("get_string",)],
+            [("get_fixed_string", 3, False), ("mode", False), ("get_byte",), ("mode", True), ("get_bytes", 10 ** 9), ("next_chunk",), ("get_int",)],
+        ]
+        for k in range(shard["lo"], shard["hi"]):
+            lead = leads[k % 3]
+            filler = bytes([rng.choice([0x01, 0x41, 0xFE, 0x00, 0x7E])]) * k
+            data = lead + filler + b"\xff" + b"\x07\x08\x09" + (b"\xff\x0a" if k % 2 else b"")
+            script = [("mode", True)] + [("next_chunk",)] * lead.count(b"\xff") + plans[(k // 3) % 4]
+            run_script(R, rec, data, script, use_guard=(k % 5 == 0))
+            rec.case(("layout", k, len(lead), (k // 3) % 4))
+            rec.count("break-offsets-swept")
+        rec.seen("layout-ranges", "%d..%d" % (shard["lo"], shard["hi"] - 1))
     elif kind == "negative":
         # the two documented ValueErrors, and the RuntimeError of next_chunk outside chunked mode
         for data in (b"", b"\x01\x02\x03", b"\xff\x01"):
